@@ -622,7 +622,7 @@ func unpackSignature(c *UCase, what string) string {
 // ---------- generators ----------
 
 var uNames = []string{"a", "b", "d/a", "d/b", "d/e/f", "l", "l/x", "d/l", "d/l/y", "./a", "/a", "/d/b", "a/../b", "n/../d/l/k",
-	"../dst-evil/x", "../outside.txt", "../dstx/y", "d", "e", "d/e", "l2", "d/l2", "é", "a b", "d//a", "..", "../..", ".", "d/../../dst-evil/z", "k", "d/k", "/", "//", "//a", "///d/b", "./", "a/", "./."}
+	"../dst-evil/x", "../outside.txt", "../dstx/y", "d", "e", "d/e", "l2", "d/l2", "é", "a b", "d//a", "..", "../..", ".", "d/../../dst-evil/z", "k", "d/k", "/", "//", "//a", "///d/b", "./", "a/", "./.", "..data", "...", "d/..x", "..data/y"}
 var uTargets = []string{"a", "b", "d", "d/a", ".", "..", "../dst-evil", "../..", "@ARENA@/etcx/passwd", "d/..", "d/../..", "l", "d/l", "d/l/..", "l/..", "l/../outside.txt",
 	"../dst/a", "../dstx", "nonexist", "e/../..", "../a", "../d/a", "../../dst-evil/x", "", "./a", "d/./a", "l2", "../l", "k", "../k"}
 
